@@ -231,6 +231,38 @@ var c12Templates = []sim.Template{
 		}
 		return sc
 	}},
+	{Name: "re-enrol-then-old-recovery-code", F: func(s *sim.Sim) []*sim.Action {
+		// the factor is removed and enrolled again (or the other kind is added): the confirm page shows a
+		// fresh batch of recovery codes, which replaces the old one — codes of the old batch are dead
+		if len(s.Cfg.TwoFA) == 0 || s.Cfg.TwoFAEmail || !s.Cfg.Has("auth") || s.Cfg.Has("confirm") {
+			return nil
+		}
+		k := s.Cfg.TwoFA[s.R.Intn(len(s.Cfg.TwoFA))]
+		v := findAcct(s, func(u *world.User) bool {
+			return (k == "totp" && u.TOTPSecretKey != "" && u.SMSPhone == "") || (k == "sms" && u.SMSPhone != "" && u.TOTPSecretKey == "")
+		})
+		if v < 0 {
+			return nil
+		}
+		k2 := k
+		sc := []*sim.Action{act("login", 0, v, "ok"), act(k+"_validate", 0, -9, "ok"), act("advance", 0, -9, "", "d", "11s")}
+		if len(s.Cfg.TwoFA) == 2 && s.R.Intn(2) == 0 {
+			k2 = map[string]string{"totp": "sms", "sms": "totp"}[k] // add the other kind next to it
+		} else {
+			sc = append(sc, act(k+"_remove", 0, -9, "recovery"))
+		}
+		if k2 == "totp" {
+			sc = append(sc, act("totp_setup", 0, -9, ""), act("totp_confirm", 0, -9, "ok"))
+		} else {
+			sc = append(sc, act("sms_setup", 0, -9, "own"), act("sms_confirm", 0, -9, "ok"))
+		}
+		sc = append(sc, act("logout", 0, -9, ""), act("advance", 0, -9, "", "d", "11s"), act("login", 1, v, "ok"))
+		for _, kk := range []string{k, k2} {
+			sc = append(sc, act(kk+"_validate", 1, -9, "recovery_spent"))
+		}
+		sc = append(sc, act(k2+"_validate", 1, -9, "recovery"), act(k+"_validate", 1, -9, "recovery"))
+		return sc
+	}},
 	{Name: "sms-code-replay", F: func(s *sim.Sim) []*sim.Action {
 		if !s.Cfg.Has2FA("sms") || !s.Cfg.Has("auth") {
 			return nil
@@ -271,7 +303,7 @@ var c12Profile = &sim.Profile{
 func init() {
 	register(&Check{
 		ID: "C12", Level: "exploration",
-		Rule:  "histories of generate/use/replay/clear/regenerate across 3-4 accounts and 3 browsers against a copying storer (a forgotten Save is visible), directed templates (OTP add x1-6/use/replay from same and other browser/clear/regenerate; recovery use/replay/regenerate; SMS code replay; same TOTP code twice) plus random walks whose candidate strings include spent, cleared, other accounts', never-issued and empty values and stored hashes. Ledger: every OTP shown by /otp/add, every recovery code seeded or shown, every SMS in the outbox, every accepted TOTP code. Oracle: an accepted value must be live in the ledger; after acceptance its stored form is gone (recovery list shrunk by exactly one, no remaining hash verifies it; OTP hash absent; sms_secret deleted by the same session write) and the Save precedes the session write that puts uid; <=5 OTPs per account after every request; with the replay-protecting user type the same TOTP code twice in a row is rejected. distinct_nontrivial = distinct (flow, value class, #OTPs held, session state, outcome, mode, replay protection) signatures.",
+		Rule:  "histories of generate/use/replay/clear/regenerate across 3-4 accounts and 3 browsers against a copying storer (a forgotten Save is visible), directed templates (OTP add x1-6/use/replay from same and other browser/clear/regenerate; recovery use/replay/regenerate; remove-and-enrol-again / add-the-other-kind followed by a code of the replaced batch; SMS code replay; same TOTP code twice) plus random walks whose candidate strings include spent, cleared, other accounts', never-issued and empty values and stored hashes. Ledger: every OTP shown by /otp/add, every recovery code seeded or shown, every SMS in the outbox, every accepted TOTP code. Oracle: an accepted value must be live in the ledger; after acceptance its stored form is gone (recovery list shrunk by exactly one, no remaining hash verifies it; OTP hash absent; sms_secret deleted by the same session write) and the Save precedes the session write that puts uid; <=5 OTPs per account after every request; with the replay-protecting user type the same TOTP code twice in a row is rejected. distinct_nontrivial = distinct (flow, value class, #OTPs held, session state, outcome, mode, replay protection) signatures.",
 		Units: func(t string) int { return tierN(t, 500, 20000) },
 		Run: func(c *RunCtx, unit int) {
 			r := Rng(c.Seed, "C12", unit)
